@@ -179,13 +179,16 @@ class Watch:
 
     def isometric(self, mp, sites, left, what):
         ctx = self.ctx
+        # ensure_*_canonical() without arguments leaves a state alone that is canonical within the library's documented
+        # default tolerance (np.allclose: rtol 1e-5, atol 1e-8); after a sweep (canonicalise / compress) rounding level
+        tol = 1.1e-5 if what.startswith("ensure_") and "(rtol" not in what else 1e-8
         for i in sites:
             d, c = states.isometry_defect(mp, i, left)
             ctx.count("isometry_checks")
             if mp.is_mpo:
-                ok = c > 0 and d <= 1e-8 * max(1.0, c)
+                ok = c > 0 and d <= tol * max(1.0, c)
             else:
-                ok = d <= 1e-8 and abs(c - 1) <= 1e-8
+                ok = d <= tol and abs(c - 1) <= tol
             ctx.check(ok, f"{what}|not-isometric|{'mpo' if mp.is_mpo else 'state'}", site=i, left=left, defect=d, c=c,
                       bond_dims=mp.bond_dims)
             if not ok:
@@ -197,8 +200,13 @@ class Watch:
             return
         n = mp.site_num
         sites = range(0, n - 1) if left else range(1, n)
-        mine = all(states.isometry_defect(mp, i, left)[0] <= 1e-8 and abs(states.isometry_defect(mp, i, left)[1] - 1) <= 1e-8
-                   for i in sites)
+        def canonical_by_default_tolerance(i):
+            # the library's definition: np.allclose(A^dag A, 1) with numpy's defaults
+            a = np.asarray(mp[i].array)
+            m = a.reshape(-1, a.shape[-1]) if left else a.reshape(a.shape[0], -1).T
+            g = m.conj().T @ m
+            return bool(np.allclose(g, np.eye(g.shape[0])))
+        mine = all(canonical_by_default_tolerance(i) for i in sites)
         theirs = mp.check_left_canonical() if left else mp.check_right_canonical()
         self.ctx.check(bool(mine) == bool(theirs), f"{what}|check_canonical-disagrees-with-raw-arrays", mine=mine,
                        theirs=bool(theirs), left=left)
